@@ -363,6 +363,74 @@ Definition sphere_ring (n L r i0 : Z) : list (Z * Z) :=
   let up := if r =? 0 then 0 else rv L (r - 1) i0 in
   [(rv L r ni, dn); (dn, rv L r pi); (rv L r pi, up); (up, rv L r ni)].
 
+Lemma rv_inj L r i r' i' : 0 <= i < L -> 0 <= i' < L -> rv L r i = rv L r' i' -> r = r' /\ i = i'.
+Proof. unfold rv. intros Hi Hi' E. assert (E' : r * L + i = r' * L + i') by lia. apply rowmajor_inj in E'; auto. Qed.
+Lemma rv_range n L r i : 0 <= r < n -> 0 <= i < L -> 1 <= rv L r i <= n * L.
+Proof. unfold rv. intros. assert (0 <= r * L) by (apply Z.mul_nonneg_nonneg; lia). assert (r * L <= (n - 1) * L) by (apply Z.mul_le_mono_nonneg_r; lia). lia. Qed.
+Lemma succ_is L i i0 : 0 <= i < L -> 0 <= i0 < L -> (i + 1) mod L = i0 -> i = pr L i0.
+Proof.
+  intros Hi Hi0 E. destruct (mod_succ_cases i L Hi) as [[E1 L1]|[E1 L1]]; rewrite E1 in E; unfold pr;
+    destruct (i0 =? 0) eqn:Z0; lia.
+Qed.
+Lemma nx_ne_pr L i0 : 3 <= L -> 0 <= i0 < L -> (i0 + 1) mod L <> pr L i0 /\ (i0 + 1) mod L <> i0 /\ pr L i0 <> i0.
+Proof.
+  intros HL Hi0. destruct (mod_succ_cases i0 L Hi0) as [[E1 L1]|[E1 L1]]; rewrite E1; unfold pr; destruct (i0 =? 0) eqn:Z0; lia.
+Qed.
+
+Ltac sph_close SP :=
+  rewrite ?SP;
+  repeat match goal with
+         | |- context[?a =? ?b] => first [replace (a =? b) with true by lia | replace (a =? b) with false by lia]
+         end;
+  pick_disj ltac:(repeat f_equal; lia).
+
+(* the umbrella of ring vertex (r, i0): below-right, below-left, above-left, above-right *)
+Lemma sphere_ring_vertex n L r i0 : 1 <= n -> 3 <= L -> 0 <= r < n -> 0 <= i0 < L -> one_fan (sphere_uv_faces n L) (rv L r i0).
+Proof.
+  intros Hn HL Hr Hi0.
+  assert (Hni : 0 <= (i0 + 1) mod L < L) by (apply Z.mod_pos_bound; lia).
+  assert (Hpi : 0 <= pr L i0 < L) by (apply pr_range; lia).
+  destruct (nx_ne_pr L i0 HL Hi0) as [D1 [D2 D3]].
+  pose proof (succ_pr L i0 Hi0) as SP.
+  apply (one_fan_intro _ _ (sphere_ring n L r i0)); [apply sphere_oriented_manifold; auto | | |]; unfold sphere_ring; cbv zeta.
+  - (* the four `next` vertices are pairwise distinct *)
+    set (ni := (i0 + 1) mod L) in *. set (pi := pr L i0) in *. clearbody ni pi.
+    assert (B1 : 0 <= r * L) by (apply Z.mul_nonneg_nonneg; lia).
+    destruct (r =? n - 1) eqn:R1, (r =? 0) eqn:R0; unfold rv; repeat constructor; cbn [In]; intros Hin; split_or Hin; pinj Hin;
+      try lia; try (assert (r = n - 1) by lia; subst r; lia).
+  - intros [x y]. rewrite sphere_links by lia. cbn [In]. split.
+    + (* each of the four corners comes from a face *)
+      intros H. split_or H; pinj H; subst x y.
+      * destruct (r =? n - 1) eqn:R1.
+        -- left. exists i0. split; [lia|]. cbv zeta. right. right. left. replace r with (n - 1) by lia. auto.
+        -- right. exists r, i0. split; [lia|]. split; [lia|]. cbv zeta. left. auto.
+      * destruct (r =? n - 1) eqn:R1.
+        -- left. exists (pr L i0). split; [lia|]. cbv zeta. rewrite SP. right. right. right. replace r with (n - 1) by lia. auto.
+        -- right. exists r, (pr L i0). split; [lia|]. split; [lia|]. cbv zeta. rewrite SP. right. left. auto.
+      * destruct (r =? 0) eqn:R0.
+        -- left. exists (pr L i0). split; [lia|]. cbv zeta. rewrite SP. left. right. right. replace r with 0 by lia. auto.
+        -- right. exists (r - 1), (pr L i0). split; [lia|]. split; [lia|]. cbv zeta. rewrite SP.
+           replace (r - 1 + 1) with r by lia. right. right. left. auto.
+      * destruct (r =? 0) eqn:R0.
+        -- left. exists i0. split; [lia|]. cbv zeta. left. left. replace r with 0 by lia. auto.
+        -- right. exists (r - 1), i0. split; [lia|]. split; [lia|]. cbv zeta. replace (r - 1 + 1) with r by lia. right. right. right. auto.
+    + (* and every corner at the vertex is one of the four *)
+      pose proof (rv_range n L r i0 Hr Hi0) as Rv.
+      intros [[i [Hi H]]|[j [i [Hj [Hi H]]]]]; cbv zeta in H;
+        assert (Hi' : 0 <= (i + 1) mod L < L) by (apply Z.mod_pos_bound; lia).
+      * destruct H as [H|H]; split_or H; destruct H as [E [-> ->]]; try lia; apply rv_inj in E; auto; destruct E as [E1 E2].
+        -- subst r i. sph_close SP.
+        -- symmetry in E2. apply succ_is in E2; auto. subst r i. sph_close SP.
+        -- subst r i. sph_close SP.
+        -- symmetry in E2. apply succ_is in E2; auto. subst r i. sph_close SP.
+      * split_or H; destruct H as [E [-> ->]]; apply rv_inj in E; auto; destruct E as [E1 E2].
+        -- subst j i. sph_close SP.
+        -- symmetry in E2. apply succ_is in E2; auto. subst j i. sph_close SP.
+        -- symmetry in E2. apply succ_is in E2; auto. subst r i. sph_close SP.
+        -- subst r i. sph_close SP.
+  - cbn [chained fst snd]. auto.
+Qed.
+
 Lemma sphere_vertex_manifold n L : 1 <= n -> 3 <= L -> vertex_manifold (sphere_uv_nverts n L) (sphere_uv_faces n L).
 Proof.
   intros Hn HL. rewrite sphere_nverts by lia. intros v Hv.
@@ -401,25 +469,6 @@ Proof.
     { subst r i0. pose proof (Z.div_mod (v - 1) L ltac:(lia)). pose proof (Z.mod_pos_bound (v - 1) L ltac:(lia)).
       unfold rv. split; [lia|]. split; [lia|]. split; [apply Z.div_pos; lia | apply Z.div_lt_upper_bound; nia]. }
     destruct Hri as [Ev [Hi0 Hr]]. clearbody r i0. subst v.
-    assert (B1 : 0 <= r * L) by (apply Z.mul_nonneg_nonneg; lia).
-    assert (B2 : r * L <= (n - 1) * L) by (apply Z.mul_le_mono_nonneg_r; lia).
-    apply (one_fan_intro _ _ (sphere_ring n L r i0)); [apply sphere_oriented_manifold; auto | | |];
-      unfold sphere_ring; cbv zeta;
-      destruct (mod_succ_cases i0 L Hi0) as [[Ei Li]|[Ei Li]]; rewrite Ei;
-      destruct (pr_cases L i0 Hi0) as [[Pi Qi]|[Pi Qi]]; rewrite Pi; try lia;
-      destruct (r =? n - 1) eqn:R1; destruct (r =? 0) eqn:R0.
-    1-12: unfold rv; repeat constructor; cbn [In]; intros Hin; split_or Hin; pinj Hin; lia.
-    1-12: intros [x y]; rewrite sphere_links by lia; split;
-      [ intros H; cbn [In] in H; split_or H; pinj H; subst x y;
-        [ first [sph_fan_wit L i0 | sph_quad_wit L r i0]
-        | first [sph_fan_wit L (i0 - 1) | sph_fan_wit L (L - 1) | sph_quad_wit L r (i0 - 1) | sph_quad_wit L r (L - 1)]
-        | first [sph_fan_wit L (i0 - 1) | sph_fan_wit L (L - 1) | sph_quad_wit L (r - 1) (i0 - 1) | sph_quad_wit L (r - 1) (L - 1)]
-        | first [sph_fan_wit L i0 | sph_quad_wit L (r - 1) i0] ]
-      | intros [[i [Hi H]]|[j [i [Hj [Hi H]]]]]; cbv zeta in H;
-        [ | assert (0 <= j * L) by (apply Z.mul_nonneg_nonneg; lia);
-            assert ((j + 1) * L <= (n - 1) * L) by (apply Z.mul_le_mono_nonneg_r; lia) ];
-        destruct (mod_succ_cases i L Hi) as [[E L']|[E L']]; rewrite E in H; unfold rv in *;
-        split_or H; destruct H as [E1 [-> ->]]; try lia; rv_eq E1; subst; cbn [In];
-        first [lia | pick_disj ltac:(f_equal; lia)] ].
-    1-12: unfold rv; cbn [chained fst snd]; repeat split; lia.
+    apply sphere_ring_vertex; auto.
 Qed.
+
